@@ -43,6 +43,30 @@ P = {
  "C19": dict(tech="wiring table on SSA value flow, decision-table agreement, dimensional (unit) rule for durations",
    text="Both metadata functions wire entity ID, endpoints, booleans and base64(StdEncoding) certificates from the named configuration sources; published signing/encryption keys equal the keys really used in all 12 valid configurations; ValidUntil = sp.Clock.Now().UTC().Add(d) with d a duration (hours must be multiplied by time.Hour), default 7 days.",
    note="Not decided: XML round trip of the descriptor (encoding/xml behaviour). " + TB, ref="DESIGN.md §3 C19"),
+ "C08": dict(tech="struct-tag schema table, value-flow wiring of the summary, path-shape rules for the accessors, shared provenance/freshness rules",
+   text="STRUCTURAL PART ONLY: every field the property enumerates decodes from the SAML-schema element/attribute name, namespace and Go type; RetrieveAssertionInfo wires NameID, every attribute in order, the AuthnStatement fields and the whole assertion list from the validated response; Get/GetSize/GetAll have the first / count / all-in-order shape with empty results for nil map and absent key; decode targets are fresh and decoded from verified elements.",
+   note="Explicitly NOT decided: that every conforming serialisation is accepted and that text survives comments / CDATA / character references / canonicalisation (behaviour of etree, encoding/xml, goxmldsig over unbounded inputs). The checked clauses are necessary conditions. " + TB, ref="DESIGN.md §3 C08"),
+ "C13": dict(tech="expression-shape and sibling-agreement rules on SSA paths, lock-ordered event rules, who-may-call scans, decision-table agreement",
+   text="STRUCTURAL PART ONLY: each Sign* puts ConstructSignature(el, enveloped=true) from sp.SigningContext() at child index 1 of a copy (Issuer is created first by every builder); SigningContext applies algorithm and canonicalizer to the new context under the write lock and embeds the signer's own certificate; all signing goes through it; signer, reported certificate and both metadata signing descriptors pick the same key source in all 12 valid configurations.",
+   note="Explicitly NOT decided: that the produced signature verifies after serialisation and re-parse (c14n + RSA at run time). " + TB, ref="DESIGN.md §3 C13"),
+ "C14": dict(tech="event-order and value-flow rules on SSA paths of the two redirect builders",
+   text="STRUCTURAL PART ONLY: raw DEFLATE over a fresh buffer receives exactly the document, Close() is checked before the buffer is read, base64.StdEncoding everywhere; parameters are added to the endpoint's own Query() and RawQuery is exactly qs.Encode(); RelayState is added iff non-empty; the signing string is the QueryEscape/Encode'd pairs in the order SAMLRequest,[RelayState,]SigAlg over the values sent, signed by the same context whose identifier is SigAlg.",
+   note="Explicitly NOT decided: inflate∘deflate, base64 and percent-coding round trips, that the signature verifies. Assumes the configured IdP endpoint does not itself carry SAMLRequest/RelayState/SigAlg/Signature parameters. " + TB, ref="DESIGN.md §3 C14"),
+ "C15": dict(tech="document model reconstructed from the etree API event trace per SSA path; wiring and order tables",
+   text="Injection-safety by construction: every element/attribute name is a compile-time constant and no raw sink is used; each attribute/child of the three messages is emitted exactly under its condition from exactly the named configuration field or argument; IssueInstant is Format(Z-literal layout) of sp.Clock.Now().UTC(); children follow the schema sequence with Issuer first; the document root is the built element or Sign*(it) exactly under the signing condition.",
+   note="Not decided: well-formedness of etree's serialiser, characters outside the XML repertoire. " + TB, ref="DESIGN.md §3 C15"),
+ "C16": dict(tech="package-identity scan, constant-template parsing at analysis time (text/template/parse), value-flow wiring",
+   text="The three POST bodies are produced solely by html/template Execute into the returned buffer from a compile-time-constant template with only plain string field actions inside quoted attribute values, one POST form with action={{.URL}}, the base64 document field and a RelayState input exactly on the non-empty path; fields are wired from the flow's endpoint, base64.StdEncoding(document) and relayState.",
+   note="Not decided: html/template's escaper itself. " + TB, ref="DESIGN.md §3 C16"),
+ "C17": dict(tech="write-effect scan over the call-graph cone of all public operations, path-sensitive lockset on SigningContext, copylocks-style scan",
+   text="After configuration the only provider state written by any public operation is sp.signingContext (and the context object), only inside SigningContext, loads under R/W and stores/mutations under W with every acquire released; no package-level mutable state; validators return fresh allocations; the provider is never copied by value.",
+   note="Not decided: data races inside dependencies or user-supplied key/certificate stores; equality of concurrent and sequential results as an observed fact (implied for module code by the effect rules). " + TB, ref="DESIGN.md §3 C17"),
+ "C18": dict(tech="value-flow rule for ID attributes, SSA rules on NewV4, exhaustive evaluation of the byte transforms over 256 inputs",
+   text="Every ID attribute is a constant NCName-start prefix + String() of a uuid.NewV4() called in the same builder activation; NewV4 fills all 16 bytes of a fresh array from crypto/rand with the error fatal; version/variant transforms are correct for all 256 byte values and no other byte is overwritten; String() is the 8-4-4-4-12 lower-case hex layout.",
+   note="Not decided: non-repetition (a probabilistic consequence of 122 random bits, not a code shape). " + TB, ref="DESIGN.md §3 C18"),
+ "C20": dict(tech="sibling struct-tag comparison, decode-target type comparison, value-flow rules on the pre-decoders",
+   text="STRUCTURAL PART ONLY: every field of UnverifiedBaseResponse has the identical xml tag and type in Response; the logout pre-decoder and full validation fill the same type; both pre-decoders decode the base64-decoded input via maybeDeflate with the 5 MiB default into an object allocated inside each attempt and return the successful attempt's object.",
+   note="Explicitly NOT decided: that encoding/xml on the raw bytes and on the re-serialised verified tree select the same attribute / Issuer for documents with duplicates or shadowing (parser behaviour on adversarial inputs). " + TB, ref="DESIGN.md §3 C20"),
 }
 
 NA_REASONS = {}
